@@ -29,7 +29,10 @@ ASSUMPTIONS = [
 ]
 BUDGET_S = {"quick": 170.0, "thorough": 3000.0}
 
-LAYOUTS = ["contig", "strided_last", "strided_all", "subblock", "transposed"]
+# "pooled": the array is a slice of one allocation shared by all pooled arrays of the case (a scratch pool: same .base, disjoint
+# memory); "interleaved": consecutive interleaved arrays are the even / odd elements of one parent (overlapping extents, no common
+# element)
+LAYOUTS = ["contig", "strided_last", "strided_all", "subblock", "transposed", "pooled", "interleaved"]
 
 
 # ------------------------------------------------------------------------------------------------
@@ -49,6 +52,7 @@ class H:
         self.specs = list(case["fields"])
         self.sc = [float(v) for v in case["scalars"]]
         self._n = 0
+        self._pools = {}
         self.arrays = []  # dicts: name, view, base, snap_base, role, pre
         self.noncontig = False
 
@@ -76,6 +80,24 @@ class H:
             bshape = (*lead, *sp[::-1])
             perm = list(range(len(lead))) + [len(lead) + i for i in range(nsp)][::-1]
             viewer = lambda b: b.transpose(perm)  # noqa: E731
+        elif lay in ("pooled", "interleaved"):
+            size = int(np.prod(full_shape))
+            key = (lay, np.dtype(dtype).str)
+            pool = self._pools.get(key)
+            if lay == "pooled":
+                if pool is None or pool["used"] + size > pool["arr"].size:
+                    pool = self._pools[key] = {"arr": np.zeros(8 * size + 64, dtype=dtype), "used": 7}
+                view = pool["arr"][pool["used"]: pool["used"] + size].reshape(full_shape)
+                pool["used"] += size + 5
+            else:
+                if pool is None or pool["size"] != size or pool["next"] > 1:
+                    pool = self._pools[key] = {"arr": np.zeros(2 * size, dtype=dtype), "size": size, "next": 0}
+                view = pool["arr"][pool["next"]::2].reshape(full_shape)
+                assert np.shares_memory(view, pool["arr"])
+                pool["next"] += 1
+            self.noncontig = True
+            self._last_viewer = lambda b: b
+            return view, view  # the memory "around" belongs to the other arrays of the pool: not checked for these layouts
         else:
             raise ValueError(lay)
         base = np.zeros(bshape, dtype=dtype)
@@ -832,7 +854,10 @@ def _strategy(tier, ki):
             "shape": shape,
             "dtype": draw(gen.precisions),
             "threads": threads,
-            "layouts": draw(st.lists(st.sampled_from(LAYOUTS), min_size=4, max_size=4)),
+            # per-array layouts, or (a quarter of the cases) one layout for every array of the call - then all arrays come from
+            # one pool / are pairwise interleaved
+            "layouts": draw(st.one_of(st.lists(st.sampled_from(LAYOUTS), min_size=4, max_size=4), st.lists(st.sampled_from(LAYOUTS), min_size=4, max_size=4),
+                                      st.lists(st.sampled_from(LAYOUTS), min_size=4, max_size=4), st.sampled_from(LAYOUTS).map(lambda q: [q] * 4))),
             "fields": draw(st.lists(gen.field_spec(kinds=fk, max_mag_exp=8), min_size=4, max_size=4)),
             # scalar arguments (fixed values, prefactors, penalties): exact special values are admissible inputs and are where
             # "nothing to do" shortcuts live
